@@ -136,8 +136,8 @@ def reports : List SFrame → List Pending → List Sx
         else if reportedTypes.contains typ then
           Sx.list [Sx.ofString (methodName c m), .atom typ,
             .list ((exported named).mergeSort (fun a b => a.1 ≤ b.1) |>.map fun (n, v) => .list [.atom n, avalSx v])] ::
-            reports rest pend
-        else reports rest pend
+            reports rest (pend.filter (·.ch != ch))
+        else reports rest (pend.filter (·.ch != ch))   -- a method ends any content under assembly on its channel
     | .header ch _ size flags props =>
       match pend.find? (·.ch == ch) with
       | none => reports rest pend
